@@ -39,17 +39,42 @@ def _ret_terms(fn, consts=None):
     return ex, result
 
 def run(chk, program, tier):
+    for r, t in (('ID-PARSE', 'parse(build(x)) = x per bit and per branch'), ('ID-BUILD', 'build(parse(id)) = id on all 29 bits; bits 29..31 unused'),
+                 ('ID-ACT', 'Actisense header integer build/parse inverse'), ('ID-BYTES', 'byte order of the identifier agrees between writer and reader of each format'),
+                 ('ID-USE', 'each writer builds the identifier of the message it writes, afresh'), ('ID-PURE', 'the header functions depend on their arguments only')):
+        chk.rule(r, t)
+    id_pure(chk, program)
     try:
         _run(chk, program, tier)
     except (B.Top, B.NeedBranch) as t:
         chk.unknown('ID-PARSE', 'header functions', f"bit provenance gave up: {t}", DEC, 0)
+    except AnalysisError as e:
+        chk.unknown('ID-PARSE', 'header functions', str(e), DEC, 0)
+    for part in (actisense, id_bytes, id_use):
+        try:
+            part(chk, program)
+        except (B.Top, B.NeedBranch, AnalysisError) as t:
+            chk.unknown('ID-ACT', part.__name__, str(t), DEC, 0)
+
+def id_pure(chk, program):
+    """_build_header / _extract_header are functions of their arguments: they read no instance, class or module state (a cache keyed by part of the
+    arguments would make the identifier of one message depend on earlier ones)"""
+    import builtins
+    for mod, q, f in (('encoder', 'NMEA2000Encoder._build_header', ENC), ('decoder', 'NMEA2000Decoder._extract_header', DEC)):
+        fn = program.fn(mod, q)
+        consts = program.module_consts(mod)
+        params = {a.arg for a in fn.args.args}
+        body = ast.Module(body=fn.body, type_ignores=[])       # the body only: annotations are not behaviour
+        local = {n.id for n in ast.walk(body) if isinstance(n, ast.Name) and isinstance(n.ctx, ast.Store)}
+        bad = sorted({n.id for n in ast.walk(body) if isinstance(n, ast.Name) and isinstance(n.ctx, ast.Load) and n.id not in params | local and n.id not in consts and not hasattr(builtins, n.id)})
+        attrs = sorted({ast.unparse(n) for n in ast.walk(body) if isinstance(n, ast.Attribute) and isinstance(n.value, ast.Name) and n.value.id in ('self', 'cls', 'NMEA2000Encoder', 'NMEA2000Decoder')})
+        stores = [n for n in ast.walk(body) if isinstance(n, (ast.Subscript, ast.Attribute)) and isinstance(n.ctx, (ast.Store, ast.Del))]
+        ok = not bad and not attrs and not stores
+        chk.check(ok, 'ID-PURE', q, file=f, line=fn.lineno, func=q, expected='reads only its parameters and literal constants; writes nothing',
+                  found={'names': bad, 'attributes': attrs, 'stores': [ast.unparse(x)[:40] for x in stores]} if not ok else 'pure',
+                  detail='' if ok else 'state consulted by the header function (e.g. a cache) can make two different (PGN, source, destination, priority) tuples share one identifier')
 
 def _run(chk, program, tier):
-    chk.rule('ID-PARSE', 'parse(build(x)) = x per bit and per branch')
-    chk.rule('ID-BUILD', 'build(parse(id)) = id on all 29 bits; bits 29..31 unused')
-    chk.rule('ID-ACT', 'Actisense header integer build/parse inverse')
-    chk.rule('ID-BYTES', 'byte order of the identifier agrees between writer and reader of each format')
-    chk.rule('ID-USE', 'each writer builds the identifier of the message it writes, afresh')
     pf = program.fn('decoder', 'NMEA2000Decoder._extract_header')
     bf = program.fn('encoder', 'NMEA2000Encoder._build_header')
     pex, pret = _ret_terms(pf, program.module_consts('decoder'))
@@ -155,9 +180,6 @@ def _run(chk, program, tier):
             y = rebuilt[bit] if bit < len(rebuilt) else 0
             chk.check(y == (idp, bit), 'ID-BUILD', f"{inst}::id[{bit}]", file=ENC, line=bf.lineno, func='_build_header', expected=f"{idp}[{bit}]", found=str(y))
         chk.check(len(rebuilt) <= 29, 'ID-BUILD', f"{inst}::no-bits-above-28", file=ENC, line=bf.lineno, func='_build_header', expected='<= 29 bits', found=len(rebuilt))
-    actisense(chk, program)
-    id_bytes(chk, program)
-    id_use(chk, program)
     chk.floor('bit_obligations', len(chk.obs), 150)
 
 def _is_pdu1(assume):
